@@ -17,7 +17,8 @@ Call(r) == [params |-> r.params, shapes |-> r.shapes, hasret |-> r.hasret, retto
 
 \* v.level: "full" (new-style: stage, blamed parameter, printed bindings, body count are all observable)
 \*          "verdict-body" (a permuted declaration: verdict and number of body runs)
-\*          "verdict" (old-style / dataclass / traced: only accepted-or-raised is observable)
+\*          "note" (old-style jaxtyped(tc(f)): verdict class, and the bindings attached as an exception note)
+\*          "verdict" (dataclass / traced: only accepted-or-raised is observable)
 \* a permuted declaration may meet an ordinary mismatch before an unresolvable symbolic axis (or
 \* vice versa): both are rejections, which is all C02 speaks about
 Class(o) == IF o \in {"TCE", "AnnErr"} THEN "rejected" ELSE o
@@ -28,6 +29,8 @@ VariantOK(v, e) ==
         /\ (e.stage = "params" => v.blamed = e.blamed)
         /\ v.printed = Printed(e.printed)
   /\ (v.level \in {"full", "verdict-body"}) => v.bodyruns = e.bodyruns
+  \* old style: the checker's own exception carries a note with exactly the bindings in force (none => no note)
+  /\ (v.level = "note" /\ e.outcome = "TCE") => v.printed = Printed(e.printed)
 
 Expected(r) == LET e == CallOutcome(Call(r)) IN
   [outcome |-> e.outcome, stage |-> e.stage, blamed |-> e.blamed, printed |-> Printed(e.printed), bodyruns |-> e.bodyruns]
